@@ -287,16 +287,19 @@ type SimStream struct {
 	once          sync.Once
 	Written       []byte // everything written on this end (for the harness)
 	mu            sync.Mutex
+	rsem          chan struct{} // readers are serialised (a channel, so that a waiting reader counts as blocked for synctest)
 }
 
 // NewStreamPair returns two connected ends a (local la) and b (local lb).
 func NewStreamPair(la, lb net.Addr) (*SimStream, *SimStream) {
-	a := &SimStream{local: la, remote: lb, rd: make(chan []byte, 4096), closed: make(chan struct{})}
-	b := &SimStream{local: lb, remote: la, rd: make(chan []byte, 4096), closed: make(chan struct{})}
+	a := &SimStream{local: la, remote: lb, rd: make(chan []byte, 4096), closed: make(chan struct{}), rsem: make(chan struct{}, 1)}
+	b := &SimStream{local: lb, remote: la, rd: make(chan []byte, 4096), closed: make(chan struct{}), rsem: make(chan struct{}, 1)}
 	a.peer, b.peer = b, a
 	return a, b
 }
 func (s *SimStream) Read(p []byte) (int, error) {
+	s.rsem <- struct{}{}
+	defer func() { <-s.rsem }()
 	if len(s.pending) == 0 {
 		select {
 		case seg, ok := <-s.rd:
